@@ -11,8 +11,8 @@ from lib import vlib
 
 FILES = ["Listeners.tla", "ObserveListeners.tla"]
 SCOPES = {
-    "quick": [("pairs", 2, 2), ("multi", 1, 1), ("two", 2, 3)],
-    "thorough": [("pairs", 3, 3), ("multi", 2, 2), ("two", 3, 3)],
+    "quick": [("pairs", 2, 2), ("multi", 1, 1), ("two", 2, 3), ("churn", 2, 4)],
+    "thorough": [("pairs", 3, 3), ("multi", 2, 2), ("two", 3, 3), ("churn", 1, 5)],
 }
 
 
@@ -21,7 +21,9 @@ def tmp(n):
 
 
 def consts(fam, kl, pl):
-    return {"Family": json.dumps(fam), "MaxKeyLen": kl, "MaxPrefixLen": pl}
+    # churn: the third number is the length bound of the operation sequence
+    return {"Family": json.dumps(fam), "MaxKeyLen": kl, "MaxPrefixLen": 0 if fam == "churn" else pl,
+            "MaxOps": pl if fam == "churn" else 0}
 
 
 def strip_none(v):
